@@ -318,3 +318,65 @@ Print Assumptions C19_sasl_owed.
 Print Assumptions C19_sasl_owed_meaning.
 Print Assumptions C19_sasl_gate_plain_external.
 Print Assumptions C19_base64_roundtrip.
+
+(* generated-code tie, stage 2: capability negotiation.  Gen/GoFuncs.v holds the Gallina
+   TRANSLATION of the Go bodies of capSet.Add/Has/Intersect/Slice/Size, getRequestCapabilities,
+   negotiateCapabilities, handleCapAck, handleCapNak, h_CAP, h_410, h_AUTHENTICATE, h_903/904/908
+   (translator/go2coq.go, go2coq2.go: a *capSet is its map, a CapsLib.kmap; map ranges walk the
+   canonical key order; cfg.Sasl is an option of an oracle record, [osasl]; a []byte is an option;
+   the fields of conn a function touches are passed in and returned; a panic is Panic).  Each is
+   equal to its model in Model/Caps.v, for all inputs, panics included (Proofs/GenEqCaps.v). *)
+From Verif Require Import GoFuncs GenEqCaps.
+Theorem gen_C19_capSet :
+  (forall c caps, go_client_capSet_Add c caps = cap_add c caps)
+  /\ (forall c cap, go_client_capSet_Has c cap = Ok (cap_has c cap))
+  /\ (forall c other, go_client_capSet_Intersect c other = Ok (cap_intersect c other))
+  /\ (forall c, go_client_capSet_Slice c = Ok (cap_slice c))
+  /\ (forall c, go_client_capSet_Size c = Ok (cap_size c))
+  /\ go_client_capabilitySet = Ok km_empty.
+Proof.
+  split; [exact go_capSet_Add_eq|]. split; [exact go_capSet_Has_eq|].
+  split; [exact go_capSet_Intersect_eq|]. split; [exact go_capSet_Slice_eq|].
+  split; [exact go_capSet_Size_eq|exact go_capabilitySet_eq].
+Qed.
+Theorem gen_C19_getRequestCapabilities : forall cfg,
+  go_client_Conn_getRequestCapabilities (cf_wanted cfg) (osasl (cf_sasl cfg)) = request_caps cfg.
+Proof. exact go_getRequestCapabilities_eq. Qed.
+Theorem gen_C19_negotiateCapabilities : forall cfg st caps,
+  go_client_Conn_negotiateCapabilities (cf_wanted cfg) (osasl (cf_sasl cfg)) (cs_supported st) caps
+  = (r <- negotiate cfg st caps ;; Ok (cs_supported (fst r), snd r)).
+Proof. exact go_negotiateCapabilities_eq. Qed.
+Theorem gen_C19_handleCapAck : forall cfg st caps,
+  go_client_Conn_handleCapAck (osasl (cf_sasl cfg)) (cs_current st) (cs_remaining st) caps
+  = (r <- handle_ack cfg st caps ;; Ok (cs_current (fst r), cs_remaining (fst r), snd r)).
+Proof. exact go_handleCapAck_eq. Qed.
+Theorem gen_C19_handleCapNak : forall st caps,
+  go_client_Conn_handleCapNak caps = (r <- handle_nak st caps ;; Ok (snd r)).
+Proof. exact go_handleCapNak_eq. Qed.
+Theorem gen_C19_h_CAP : forall cfg st e,
+  go_client_Conn_h_CAP (cf_wanted cfg) (osasl (cf_sasl cfg)) (cs_current st) (cs_remaining st)
+                       (cs_supported st) (ev_args e)
+  = (r <- h_CAP fields cfg st e ;;
+     Ok (cs_current (fst r), cs_remaining (fst r), cs_supported (fst r), snd r)).
+Proof. exact go_h_CAP_eq. Qed.
+Theorem gen_C19_h_AUTHENTICATE : forall cfg st e,
+  go_client_Conn_h_AUTHENTICATE (osasl (cf_sasl cfg)) (cs_remaining st) (ev_args e)
+  = (r <- h_AUTHENTICATE cfg st e ;; Ok (cs_remaining (fst r), snd r)).
+Proof. exact go_h_AUTHENTICATE_eq. Qed.
+Theorem gen_C19_numerics : forall st e,
+  go_client_Conn_h_903 = (r <- h_903 st ;; Ok (snd r))
+  /\ go_client_Conn_h_904 = (r <- h_904 st ;; Ok (snd r))
+  /\ go_client_Conn_h_908 (ev_args e) = (r <- h_908 st e ;; Ok (snd r))
+  /\ (_ <- go_client_Conn_h_410 (ev_args e) ;; Ok (st, @nil bytes)) = h_410 st e.
+Proof.
+  intros st e. split; [apply go_h_903_eq|]. split; [apply go_h_904_eq|].
+  split; [apply go_h_908_eq|apply go_h_410_caps_eq].
+Qed.
+Print Assumptions gen_C19_capSet.
+Print Assumptions gen_C19_getRequestCapabilities.
+Print Assumptions gen_C19_negotiateCapabilities.
+Print Assumptions gen_C19_handleCapAck.
+Print Assumptions gen_C19_handleCapNak.
+Print Assumptions gen_C19_h_CAP.
+Print Assumptions gen_C19_h_AUTHENTICATE.
+Print Assumptions gen_C19_numerics.
